@@ -20,7 +20,7 @@ from adaptix.struct_trail import get_trail
 
 from mc import codec, env, parallel
 from mc import ref_generic as rg
-from mc.ref_generic import ANY, BOOL, INT, STR, var
+from mc.ref_generic import BOOL, INT, STR, var
 from mc.report import Report, digest
 
 META = {
@@ -588,7 +588,8 @@ class Evaluator:
             return
         cls = classes[leaf]
         params = rg.class_params(spec, leaf)
-        if real_params(cls, kind) != params:
+        if real_params(cls, kind) != params and not (kind == "pydantic" and not params):
+            # (pydantic keeps the parameters of a bare generic base on the subclass; typing does not)
             raise RuntimeError(f"parameter order: reference {params}, python {real_params(cls, kind)}: {describe(spec, kind, None)}")
         if real_fields(cls, kind) != rg.field_names(spec, leaf):
             raise RuntimeError(f"fields: reference {rg.field_names(spec, leaf)}, python {real_fields(cls, kind)}: "
